@@ -14,6 +14,8 @@ From Pcfg Require Import ProbAlg F64 TextFile Counters Reader IoCorr TextFilePro
 From PcfgGen Require Import Consts_gen.
 From Pcfg Require Import LoaderRt LoaderGenProofs.
 From PcfgGen Require Import Loader_gen.
+From Pcfg Require Import WriterRt WriterSpec WriterGenProofs WriterGenProofsConfig WriterGenInst SmallGenProofsProbs.
+From PcfgGen Require Import Writer_gen WriterConfig_gen Small_probs_gen.
 Import ListNotations.
 
 (* the classes probed from this interpreter have the shape the proofs rely on
@@ -72,6 +74,107 @@ Proof. exact config_lists_exact. Qed.
 Theorem C07_file_names_distinct : forall (O : numops) old (cs : list (str * counter O)),
   NoDup (map fst cs) -> NoDup (map fst (save_indexed old cs)).
 Proof. exact CountersProofs.save_indexed_names_nodup. Qed.
+
+(* ---- translator tie (harness/translate_writer.py; gen/Writer_gen.v, gen/WriterConfig_gen.v): the Python
+   text of save_indexed_counters / save_pcfg_data (lib_trainer/save_pcfg_data.py) and of
+   create_filename_list / add_* / create_config_file (lib_trainer/config_file.py), translated on every
+   run, over the file system of WriterRt.v (a map from paths to text, os.walk + os.unlink) ---- *)
+
+(* the folder is emptied at every depth, then holds Counters.save_indexed of the counters *)
+Theorem C07_source_save_indexed_counters_is_model :
+  forall (O : numops) (repr : num O -> str) (encb : str -> N -> bool) (nmul : num O -> num O -> num O) (ud : str * num O)
+         (folder : path) (cl : list (pykey * counter O)) (enc : str) (fs : fsys),
+  fs_wf fs ->
+  (all_encodable repr encb enc cl = true ->
+   py_save_indexed_counters repr encb (py_calculate_probabilities nmul ud) folder cl enc fs =
+   (Ok true, fs_install folder (folder_texts repr (save_indexed [] (str_keys cl))) fs)) /\
+  (all_encodable repr encb enc cl = false ->
+   exists fs', py_save_indexed_counters repr encb (py_calculate_probabilities nmul ud) folder cl enc fs = (Ok false, fs')).
+Proof. exact (@source_save_indexed_eq). Qed.
+
+Theorem C07_source_save_pcfg_data_is_model :
+  forall (O : numops) (repr : num O -> str) (encb : str -> N -> bool) (nmul : num O -> num O -> num O) (ud : str * num O)
+         (base : path) (P : pcounters) (sens : bool) (cov : num O) (n : N) (enc : str) (fs : fsys),
+  fs_wf fs ->
+  let pp := parser_of O P (with_markov cov n (of_counts (sc_base (pc_structs P)))) in
+  (ruleset_encodable repr encb enc (save_pcfg_data O P sens cov n) = true ->
+   py_save_pcfg_data repr encb (py_calculate_probabilities nmul ud) base pp enc sens fs =
+   (Ok true, install_all repr base (save_pcfg_data O P sens cov n) fs)) /\
+  (ruleset_encodable repr encb enc (save_pcfg_data O P sens cov n) = false ->
+   exists fs', py_save_pcfg_data repr encb (py_calculate_probabilities nmul ud) base pp enc sens fs = (Ok false, fs')).
+Proof. exact (@source_save_pcfg_data_cases). Qed.
+
+(* binary64: the text of a file is TextFile.write_file, the writer of the round trips above *)
+Theorem C07_source_text_is_write_file : forall (repr : float -> str) (l : list (str * float)),
+  @write_text FNum repr l = write_file repr l.
+Proof. exact write_text_F64. Qed.
+
+Theorem C07_source_create_filename_list_is_model : forall (O : numops) (d : list (pykey * counter O)),
+  py_create_filename_list O d = Ok (name_list d) /\ map py_str (name_list d) = filename_list (str_keys d).
+Proof. exact (fun O d => conj (config_filename_list_eq O d) (name_list_strs d)). Qed.
+
+(* the sections the translated create_config_file builds: their `filenames` and `directory` entries are
+   the model's config_lists / config_dirs and START -> grammar.txt in Grammar, in any order *)
+Theorem C07_source_create_config_file_is_model : forall (O : numops) (pp : parser_obj O),
+  exists cfg, py_create_config_file O tt tt pp = Ok cfg /\
+    (forall sec names, In (sec, names) (cfg_names cfg) <-> In (sec, names) (expected_names pp)) /\
+    (forall sec dir, In (sec, dir) (cfg_dirs cfg) <-> In (sec, dir) expected_dirs).
+Proof. exact config_create_eq. Qed.
+
+Theorem C07_source_expected_names_are_config_lists : forall (O : numops) (P : pcounters) (base : counter O),
+  map (fun sn => (fst sn, map py_str (snd sn))) (tl (expected_names (parser_of O P base))) = config_lists O P.
+Proof. exact expected_names_model. Qed.
+
+(* C07_file_names_distinct over the translated writer: one file per key, named str(key).txt, distinct
+   names for distinct keys; afterwards the folder holds nothing else, whatever it held before *)
+Theorem C07_source_file_names_distinct :
+  forall (O : numops) (repr : num O -> str) (encb : str -> N -> bool) (nmul : num O -> num O -> num O) (ud : str * num O)
+         (folder : path) (cl : list (pykey * counter O)) (enc : str) (fs : fsys),
+  fs_wf fs -> all_encodable repr encb enc cl = true -> NoDup (map (fun kc => py_str (fst kc)) cl) ->
+  let fs' := snd (py_save_indexed_counters repr encb (py_calculate_probabilities nmul ud) folder cl enc fs) in
+  fs_list folder fs' = folder_texts repr (save_indexed [] (str_keys cl)) /\
+  map fst (fs_list folder fs') = map (fun kc => file_name (py_str (fst kc))) cl /\
+  NoDup (map fst (fs_list folder fs')) /\ fs_wf fs'.
+Proof. exact (@source_file_names_distinct). Qed.
+
+(* C07_config_lists_exact over the translated functions: after the translated save_pcfg_data has run on
+   ANY disk, every section of the configuration the translated create_config_file builds names exactly
+   the files of its directory (START names grammar.txt, which is in Grammar) *)
+Theorem C07_source_config_lists_exact :
+  forall (O : numops) (repr : num O -> str) (encb : str -> N -> bool) (nmul : num O -> num O -> num O) (ud : str * num O)
+         (base : path) (P : pcounters) (sens : bool) (cov : num O) (n : N) (enc : str) (fs : fsys),
+  fs_wf fs -> pcounters_wf P -> ruleset_encodable repr encb enc (save_pcfg_data O P sens cov n) = true ->
+  let pp := parser_of O P (with_markov cov n (of_counts (sc_base (pc_structs P)))) in
+  exists cfg fs',
+    py_create_config_file O tt tt pp = Ok cfg /\
+    py_save_pcfg_data repr encb (py_calculate_probabilities nmul ud) base pp enc sens fs = (Ok true, fs') /\
+    fs_wf fs' /\
+    (forall sec names, In (sec, names) (cfg_names cfg) -> sec <> str_of_string "START" ->
+       exists dir, In (sec, dir) (cfg_dirs cfg) /\ map fst (fs_list (path_join base dir) fs') = map py_str names) /\
+    (In (str_of_string "START", [KStr (str_of_string "grammar.txt")]) (cfg_names cfg) /\
+     In (str_of_string "START", str_of_string "Grammar") (cfg_dirs cfg) /\
+     In (str_of_string "grammar.txt") (map fst (fs_list (path_join base (str_of_string "Grammar")) fs'))).
+Proof. exact (@source_config_lists_exact). Qed.
+
+(* the hypotheses are satisfiable and the generated functions run (two digit lengths -> 2.txt, 1.txt) *)
+Example C07_source_config_example :
+  let pp : parser_obj QNum :=
+    parser_of QNum {| pc_keyboard := []; pc_emails := []; pc_email_providers := []; pc_website_urls := [];
+                      pc_website_hosts := []; pc_website_prefixes := []; pc_years := []; pc_context := [];
+                      pc_alpha := [(4, [([112;97;115;115], 1)])]%N; pc_masks := [(4, [([76;76;76;76], 1)])]%N;
+                      pc_digits := [(2, [([49;50], 1)]); (1, [([55], 2)])]%N; pc_other := [];
+                      pc_structs := {| sc_base := []; sc_raw := []; sc_prince := [] |} |} [] in
+  exists cfg, py_create_config_file QNum tt tt pp = Ok cfg /\
+    In (str_of_string "BASE_D", [KStr (str_of_string "2.txt"); KStr (str_of_string "1.txt")]) (cfg_names cfg) /\
+    In (str_of_string "BASE_D", str_of_string "Digits") (cfg_dirs cfg).
+Proof. exact config_example. Qed.
+
+Print Assumptions C07_source_save_indexed_counters_is_model.
+Print Assumptions C07_source_save_pcfg_data_is_model.
+Print Assumptions C07_source_create_filename_list_is_model.
+Print Assumptions C07_source_create_config_file_is_model.
+Print Assumptions C07_source_file_names_distinct.
+Print Assumptions C07_source_config_lists_exact.
 
 (* the published check_valid (C0 controls, U+0085, U+2028) accepts U+2029, on
    which the line iteration splits: a value holding it is lost by the guesser,
